@@ -37,6 +37,8 @@ trait MaskT: Copy + Send + Sync + PartialEq + Hash + std::fmt::Debug + std::fmt:
     fn not_(self) -> Self;
     fn bools(self) -> Vec<bool>;
     fn u32s(self) -> Vec<u32>;
+    /// the mask as consumed by `select` of its vector type: (result lane bits, bits of the `if_true` lanes, bits of the `if_false` lanes)
+    fn select_(self) -> (Vec<u64>, Vec<u64>, Vec<u64>);
     /// k-th comparison-produced mask with its expected lanes (hidden lanes hold garbage where they exist)
     fn from_cmp(k: usize) -> (Self, Vec<bool>);
     const NCMP: usize;
@@ -66,7 +68,8 @@ fn cmp6f(k: usize, a: f32, b: f32) -> bool {
 }
 
 macro_rules! mask_impl {
-    ($T:ident, $N:expr, ($($i:tt),*), $V:ident, $mk:expr) => {
+    ($T:ident, $N:expr, ($($i:tt),*), $V:ident, $mk:expr) => { mask_impl!($T, $N, ($($i),*), $V, $mk, |m| m); };
+    ($T:ident, $N:expr, ($($i:tt),*), $V:ident, $mk:expr, $conv:expr) => {
         impl MaskT for $T {
             const N: usize = $N;
             const NAME: &'static str = stringify!($T);
@@ -89,6 +92,13 @@ macro_rules! mask_impl {
             fn not_(self) -> Self { !self }
             fn bools(self) -> Vec<bool> { let a: [bool; $N] = self.into(); a.to_vec() }
             fn u32s(self) -> Vec<u32> { let a: [u32; $N] = self.into(); a.to_vec() }
+            fn select_(self) -> (Vec<u64>, Vec<u64>, Vec<u64>) {
+                // operands with every kind of bit set: NaN payloads against negative ordinary values
+                let a = <$V>::from_array(core::array::from_fn(|i| <$V as Flat>::S::tag(4 * i)));
+                let b = <$V>::from_array(core::array::from_fn(|i| <$V as Flat>::S::tag(4 * i + 1)));
+                let r = <$V>::select(($conv)(self), a, b);
+                (r.to_array().iter().map(|x| x.bits()).collect(), a.to_array().iter().map(|x| x.bits()).collect(), b.to_array().iter().map(|x| x.bits()).collect())
+            }
             const NCMP: usize = 6 * 6 * 3;
             fn from_cmp(k: usize) -> (Self, Vec<bool>) {
                 // operand lanes walk through F; comparison kind k % 6
@@ -130,7 +140,9 @@ mask_impl!(BVec4A, 4, (0, 1, 2, 3), Vec4, |a, b, k| cmpk!(Vec4::new(a[0], a[1], 
 // scalar-math: Vec4 comparisons return BVec4; the (separate) BVec4A type is
 // only reachable through their boolean API, so the "comparison result" operand is built by new()
 #[cfg(feature = "scalar")]
-mask_impl!(BVec4A, 4, (0, 1, 2, 3), Vec4, |a, b, k| BVec4A::new(cmp6f(k, a[0], b[0]), cmp6f(k, a[1], b[1]), cmp6f(k, a[2], b[2]), cmp6f(k, a[3], b[3])));
+mask_impl!(BVec4A, 4, (0, 1, 2, 3), Vec4, |a, b, k| BVec4A::new(cmp6f(k, a[0], b[0]), cmp6f(k, a[1], b[1]), cmp6f(k, a[2], b[2]), cmp6f(k, a[3], b[3])),
+    // no select of the scalar-math build takes this type: it is consumed through its boolean array
+    |m: BVec4A| { let a: [bool; 4] = m.into(); BVec4::from_array(a) });
 #[cfg(not(feature = "scalar"))]
 type M3A = BVec3A;
 #[cfg(not(feature = "scalar"))]
@@ -224,6 +236,14 @@ fn observe<M: MaskT>(s: &MState) -> Option<(String, String)> {
     let wu: Vec<u32> = b.iter().map(|x| if *x { u32::MAX } else { 0 }).collect();
     if m.u32s() != wu {
         return fail("into_u32_array", format!("{:x?}", m.u32s()), format!("{:x?}", wu));
+    }
+    // select consumes the mask lane by lane, whatever representation the operations left behind
+    {
+        let (r, ta, tb) = m.select_();
+        let want: Vec<u64> = (0..M::N).map(|i| if b[i] { ta[i] } else { tb[i] }).collect();
+        if r != want {
+            return fail("select", format!("{:x?}", r), format!("{:x?}", want));
+        }
     }
     let disp = format!("[{}]", b.iter().map(|x| x.to_string()).collect::<Vec<_>>().join(", "));
     if format!("{}", m) != disp {
